@@ -39,6 +39,7 @@ CAT = {
     7: ST(("u", "unit", False), ("n", {"newtype": U(16)}, False)),
     8: ST(("d", U(32), True), ("x", "string", False)),
     9: ST(("w", {"seq": O(U(16))}, False), ("z", I(64), False)),
+    10: ST(("h", U(64), False), ("g", I(16), False), ("k", I(32), False), ("l", O(U(64)), False), ("m", {"seq": U(64)}, False)),   # with 0-9: every integer width the codec has a method for
 }
 DEFAULTS = {8: {"d": {"i": "0"}}}
 
